@@ -236,6 +236,15 @@ def Coords.to3d {α : Type} : Coords α → Stack α
   | .single pts => [pts]
   | .stack X => X
 
+/-- `coord[..., atom_mask, :]` on a whole structure (the sub-arrays a caller would pass instead of a mask). -/
+def Coords.selectMask (mk : List Bool) : Coords Rat → Except Err (Coords Rat)
+  | .single pts => do
+    let q ← C16.selectMask mk pts
+    pure (.single q)
+  | .stack X => do
+    let Y ← X.mapM (C16.selectMask mk)
+    pure (.stack Y)
+
 /-- The part of `superimpose(fixed, mobile, atom_mask)` that builds the transformation; the rotation
 step is a parameter (`rot fixedCentred mobileCentred`, i.e. `_get_rotation_matrices`). -/
 def superimposeTransform (rot : Stack Rat → Stack Rat → Except Err (List (M3 Rat)))
